@@ -16,6 +16,112 @@ EXISTS = 'snoopy_filterregistry_doesNameExist'
 CFG_RECORD = 'snoopy_configuration_t'
 
 
+def _consulted_rule(ctx, prog, F, calls, toks, chain_copy, drop_edges):
+    chk = ctx.chk
+    live = C.reachable_blocks(F)
+    sccs = C._sccs(F, live)
+    pos = C.elem_positions(F)
+    for c in calls:
+        cb = pos[c.id][0]
+        loop = None
+        for comp in sccs:
+            if cb in comp and (len(comp) > 1 or cb in F.blocks[cb].succs):
+                loop = set(comp)
+        if loop is None:
+            continue            # F5 reports it
+        heads = {b for b in loop if any(p_ not in loop for p_ in F.blocks[b].preds)} if hasattr(F.blocks[cb], 'preds') else None
+        if heads is None:
+            preds = {}
+            for b in F.blocks.values():
+                for s_, unr in b.all_succs:
+                    if s_ is not None and not unr:
+                        preds.setdefault(s_, set()).add(b.id)
+            heads = {b for b in loop if any(p_ not in loop for p_ in preds.get(b, ()))}
+        if len(heads) != 1:
+            raise AnalysisBroken('the loop around the filter call in %s has %d entries' % (F.name, len(heads)))
+        head = next(iter(heads))
+        # element-derived variables
+        holders = {h for h in (common.holder(F, t) for t in toks) if h is not None}
+        pt = PtrTaint(F, lambda n: any(n is t for t in toks), holders | chain_copy)
+        for cp in F.calls():
+            if cp.get('callee') in ('strncpy', 'memcpy', 'strcpy', 'snprintf'):
+                d = decl_of(arg(cp, 0))
+                if d is not None and any(pt.is_derived(a) for a in cp.ch[2:] if a is not None):
+                    pt.derived.add(d['id'])
+        elem = set(pt.derived)
+        changed = True
+        while changed:
+            changed = False
+            for d in F.local_decls():
+                if d['id'] in elem:
+                    continue
+                defs = [x for x in def_exprs(F, d['id']) if not ('v' in strip(x).d or strip(x).get('null'))]
+                if not defs:
+                    continue
+                okd = True
+                for x in defs:
+                    for n in x.walk():
+                        if n.k == 'DeclRefExpr' and n['ref'].get('kind') in ('var', 'parm') and n['ref']['id'] not in elem:
+                            okd = False
+                        if n.k == 'CallExpr' and n.get('callee') and prog.func(n['callee'], F.tu) is not None:
+                            okd = False
+                if okd:
+                    elem.add(d['id'])
+                    changed = True
+        verdict = [common.is_result_of(F, x) for x in list(calls) + F.calls(EXISTS)]
+        # a result variable that is only ever set behind a DROP verdict (`result = DROP` on the drop edge) is the verdict
+        nodrop, _ = C.reach(F, (F.entry, 0), None, edge_filter=lambda b, si: (b.id, si) not in drop_edges)
+        from engine.dataflow import def_sites
+        for d in F.local_decls():
+            sites = [n for k_, n in def_sites(F, d['id']) if k_ == 'assign']
+            if sites and all(C.cfg_elem_of(F, n).id not in nodrop for n in sites):
+                elem.add(d['id'])
+
+        def allowed(cnd):
+            if any(isx(strip(n)) for isx in verdict for n in cnd.walk() if n.k in ('CallExpr', 'DeclRefExpr')):
+                return True
+            for n in cnd.walk():
+                if n.k == 'DeclRefExpr' and n['ref'].get('kind') in ('var', 'parm') and n['ref']['id'] not in elem:
+                    return False
+                if n.k == 'CallExpr' and n.get('callee') and prog.func(n['callee'], F.tu) is not None:
+                    t_ = prog.func(n['callee'], F.tu)
+                    if not (t_.internal and all(
+                            a is None or not any(m.k == 'DeclRefExpr' and m['ref'].get('kind') in ('var', 'parm') and
+                                                 m['ref']['id'] not in elem for m in a.walk()) for a in n.ch[1:])):
+                        return False
+            return True
+
+        def reaches_call(b, si):
+            s_ = b.all_succs[si][0]
+            if s_ is None or s_ == head or s_ not in loop:
+                return False
+            vis, _ = C.reach(F, (s_, 0), lambda e: e.id == c.id,
+                             edge_filter=lambda bb, sj: bb.all_succs[sj][0] != head and bb.all_succs[sj][0] in loop)
+            return c.id in vis
+        region, _ = C.reach(F, (head, 0), lambda e: e.id == c.id,
+                            edge_filter=lambda bb, sj: bb.all_succs[sj][0] != head and bb.all_succs[sj][0] in loop)
+        bad = None
+        nblocks = 0
+        for b in loop:
+            blk = F.blocks[b]
+            if blk.cond is None or len(blk.all_succs) != 2:
+                continue
+            if b != head and not any(e.id in region for e in blk.elems):
+                continue
+            nblocks += 1
+            r0, r1 = reaches_call(blk, 0), reaches_call(blk, 1)
+            if r0 != r1 and not allowed(blk.cond):
+                bad = blk.cond
+                break
+        chk.ob('F2', 'every-known-element-is-consulted', bad is None, (bad if bad is not None else c).where(), F.name,
+               'whether the filter of an element is consulted depends on %s, which is neither a test of the element\'s own '
+               'text, nor the registry\'s answer for its name, nor an earlier DROP verdict: a known filter that would drop '
+               'can be passed over, and the decision depends on more than the set of elements' % (
+                   render(bad)[:60] if bad is not None else ''),
+               how='%d branch(es) between the start of a turn and the filter call: each one that can lead around the call '
+                   'tests the element, the registry answer or the verdict' % nblocks)
+
+
 def run(ctx):
     chk = ctx.chk
     chk.rule('F1', 'the chain returns DROP only on a path where a filter call returned DROP; every other exit returns '
@@ -203,6 +309,11 @@ def run(ctx):
                'filter call %s does not take its name from the chain element just parsed, or its argument is not the '
                'element\'s own text (a copy into a fixed buffer truncates long arguments such as uid lists)' % render(c),
                how='both arguments derive from the tokeniser result')
+    # every element with a known name is put to its filter: inside one turn of the loop, the only tests that can lead
+    # around the filter call are tests of the element's own text (no more elements, an empty one), the registry's
+    # answer for the name, and an earlier DROP verdict.  A memo of "specs seen before", a counter, a flag from
+    # another element: each of them makes the decision depend on more than "some known filter drops".
+    _consulted_rule(ctx, prog, F, calls, toks, chain_copy, drop_edges)
     # ---- F5: an empty (or otherwise odd) element is skipped, it never ends the evaluation -------------
     live = C.reachable_blocks(F)
     sccs = C._sccs(F, live)
